@@ -405,11 +405,12 @@ func (s *slowRequestLeapArray) NewEmptyBucket() interface{} {
 }
 
 func (s *slowRequestLeapArray) ResetBucketTo(bw *sbase.BucketWrap, startTime uint64) *sbase.BucketWrap {
-	atomic.StoreUint64(&bw.BucketStart, startTime)
+	// install the empty counter before publishing the new start time (see BucketLeapArray.ResetBucketTo)
 	bw.Value.Store(&slowRequestCounter{
 		slowCount:  0,
 		totalCount: 0,
 	})
+	atomic.StoreUint64(&bw.BucketStart, startTime)
 	return bw
 }
 
@@ -590,11 +591,12 @@ func (s *errorCounterLeapArray) NewEmptyBucket() interface{} {
 }
 
 func (s *errorCounterLeapArray) ResetBucketTo(bw *sbase.BucketWrap, startTime uint64) *sbase.BucketWrap {
-	atomic.StoreUint64(&bw.BucketStart, startTime)
+	// install the empty counter before publishing the new start time (see BucketLeapArray.ResetBucketTo)
 	bw.Value.Store(&errorCounter{
 		errorCount: 0,
 		totalCount: 0,
 	})
+	atomic.StoreUint64(&bw.BucketStart, startTime)
 	return bw
 }
 
